@@ -149,6 +149,22 @@ func (inst *Instance) open() error {
 	return nil
 }
 
+// WriteObjectFile places a file directly into the storage of an fs instance, as a user of
+// the fs backends may do (the s3afero docs: "objects are files"); no metadata is written.
+func (inst *Instance) WriteObjectFile(bucket, key string, data []byte) error {
+	switch inst.Kind {
+	case "fsM-mem":
+		return afero.WriteFile(inst.memFs, "buckets/"+bucket+"/"+key, data, 0644)
+	case "fsM-dir":
+		return os.WriteFile(filepath.Join(inst.Dir, "root", "buckets", bucket, filepath.FromSlash(key)), data, 0644)
+	case "fsS-mem":
+		return afero.WriteFile(inst.memFs, key, data, 0644)
+	case "fsS-dir":
+		return os.WriteFile(filepath.Join(inst.Dir, "bucket", filepath.FromSlash(key)), data, 0644)
+	}
+	return fmt.Errorf("not an fs instance")
+}
+
 // Reopen closes the backend and builds a new server on the same storage
 // (volatile state — multipart uploads — is lost, as after a restart).
 func (inst *Instance) Reopen() error {
